@@ -2,11 +2,11 @@ CONSTANTS
  Confs <- MCConfs
  FixWaitErr = FALSE
  Reduce = TRUE
- MCShapes = {"img", "dup", "dtag", "bentry", "inline"}
+ MCShapes = {"img", "inline", "dtag"}
  MCPairs = {"tworeg", "samereg", "reg2dir"}
- MCOpts <- MCOptsCore
+ MCOpts <- MCOptsDTags
  MCFeats <- MCFeatsDefault
- MCInit = "corners"
+ MCInit = "empty"
  MCTag0 = {"none", "stale"}
  MCByDigest = {FALSE}
  MCTgtByDigest = {FALSE}
